@@ -31,6 +31,8 @@ def run(calling, called, own, required, require_called, identity, n_acceptors, n
     if identity is not None:
         uid = UserIdentityNegotiation()
         uid.user_identity_type, uid.primary_field = 1, b"user"
+        if isinstance(identity, tuple):
+            uid.user_identity_type, uid.positive_response_requested = identity[2], identity[3]
     handlers = {}
 
     def on_id(event):
@@ -38,8 +40,10 @@ def run(calling, called, own, required, require_called, identity, n_acceptors, n
             raise RuntimeError("boom")
         if identity == "neg":
             return False, None
+        if isinstance(identity, tuple):
+            return identity[0], identity[1]
         return True, None
-    if identity in ("raise", "neg", "pos"):
+    if identity in ("raise", "neg", "pos") or isinstance(identity, tuple):
         handlers[evt.EVT_USER_ID] = (on_id, None)
     ae = types.SimpleNamespace(require_calling_aet=list(required), require_called_aet=require_called, maximum_associations=maximum)
     others = [types.SimpleNamespace(is_acceptor=True, is_requestor=False) for _ in range(n_acceptors)] + \
@@ -77,7 +81,10 @@ def main():
     for calling, required in (("CALLER", []), ("CALLER", ["CALLER"]), ("CALLER", ["  CALLER  ", "X"]), ("CALLER", ["OTHER"]),
                               ("CALLER", ["caller"]), ("A B", ["A B "])):
         for called, own, require_called in (("ME", "ME", True), ("ME", "ME   ", True), ("NOTME", "ME", True), ("NOTME", "ME", False)):
-            for identity in (None, "none-bound", "pos", "neg", "raise"):
+            # tuples: (handler verdict, server response, user identity type, positive response requested)
+            for identity in (None, "none-bound", "pos", "neg", "raise", (False, "denied", 3, True), (False, 401, 4, True),
+                             (False, b"no", 5, True), (True, b"ok", 3, True), (True, "not-bytes", 3, True), (False, "denied", 1, True),
+                             (False, "denied", 3, False)):
                 for n_acc, n_req, mx in ((1, 0, 1), (2, 0, 1), (2, 3, 2), (3, 0, 2), (1, 5, 1)):
                     n += 1
                     err, log, assoc = run(calling, called, own, required, require_called, identity, n_acc, n_req, mx)
@@ -89,7 +96,7 @@ def main():
                         break
                     calling_ok = (not required) or calling in [s.strip() for s in required]
                     called_ok = (not require_called) or called == own.strip()
-                    ident_ok = identity in (None, "none-bound", "pos")
+                    ident_ok = identity in (None, "none-bound", "pos") or (isinstance(identity, tuple) and identity[0] is True)
                     limit_ok = n_acc <= mx
                     allowed = calling_ok and called_ok and ident_ok and limit_ok
                     accepts = [x for x in log if x[0] == "accept"]
